@@ -350,3 +350,80 @@ pub mod __internal__ {
         response::{ResponseHeader, ResponseHeaders},
     };
 }
+
+#[cfg(ohkami_verif)]
+#[cfg(feature="__rt_native__")]
+#[doc(hidden)]
+/// verification hooks (compiled only with `--cfg ohkami_verif`); add-only wrappers around crate-private items
+pub mod __verif {
+    use crate::{Request, Response, Method};
+    use ohkami_lib::{Slice, CowSlice};
+    use std::pin::Pin;
+
+    pub use crate::request::{RequestHeader, RequestHeaders, BUF_SIZE};
+    pub use crate::router::r#final::__verif_tree as tree;
+    pub use crate::fang::handler::__verif_handler as handler;
+    pub use crate::ohkami::__verif_sync as sync;
+
+    pub fn request_init() -> Request {
+        Request::init(crate::util::IP_0000)
+    }
+    pub fn request_clear(req: &mut Request) {
+        req.clear()
+    }
+    pub async fn request_read(
+        req:    Pin<&mut Request>,
+        stream: &mut (impl crate::__rt__::AsyncRead + Unpin),
+    ) -> Result<Option<()>, Response> {
+        req.read(stream).await
+    }
+    pub fn request_buf(req: &mut Request) -> &mut [u8; BUF_SIZE] {
+        &mut *req.__buf__
+    }
+    pub fn request_set_method(req: &mut Request, method: Method) {
+        req.method = method
+    }
+    /// the real `Path::init_with_request_bytes`
+    pub fn request_set_target(req: &mut Request, target: &'static [u8]) -> Result<(), Response> {
+        req.path.init_with_request_bytes(target)
+    }
+    pub fn request_set_query(req: &mut Request, query: &'static [u8]) {
+        req.query = crate::request::QueryParams::new(query)
+    }
+    /// what `Request::read` does with one header line: the real `Header::from_bytes` + `append` / `insert_custom`
+    pub fn request_add_header(req: &mut Request, name: &'static [u8], value: &'static [u8]) {
+        let value = CowSlice::Ref(Slice::from_bytes(value));
+        if let Some(key) = RequestHeader::from_bytes(name) {
+            req.headers.append(key, value);
+        } else {
+            req.headers.insert_custom(Slice::from_bytes(name), value)
+        }
+    }
+    pub fn request_set_payload(req: &mut Request, payload: &'static [u8]) {
+        req.payload = Some(CowSlice::Ref(Slice::from_bytes(payload)))
+    }
+    pub fn request_raw_params(req: &Request) -> (usize, [(usize, usize); 2]) {
+        req.path.__verif_raw_params()
+    }
+    pub async fn read_payload(
+        stream:        &mut (impl crate::__rt__::AsyncRead + Unpin),
+        remaining_buf: &[u8],
+        size:          usize,
+    ) -> CowSlice {
+        Request::__verif_read_payload(stream, remaining_buf, size).await
+    }
+
+    pub async fn response_send(res: Response, conn: &mut (impl crate::__rt__::AsyncWrite + Unpin)) {
+        let _ = res.send(conn).await;
+    }
+    pub fn response_complete(res: &mut Response) {
+        res.complete()
+    }
+    pub fn response_declared_size(res: &Response) -> usize {
+        res.headers.__verif_size()
+    }
+    /// what `Router::handle` does to the response of a HEAD request
+    pub fn response_strip_content_for_head(res: &mut Response) {
+        res.content = crate::response::Content::None
+    }
+}
